@@ -9,10 +9,6 @@ variable {κ ν : Type} [DecidableEq κ]
 
 @[simp] theorem get?_nil (k : κ) : get? ([] : AMap κ ν) k = none := rfl
 
-theorem get?_set (m : AMap κ ν) (k k' : κ) (v : ν) :
-    get? (set m k v) k' = if k = k' then some v else get? m k' := by
-  simp [set, get?]
-
 theorem get?_keep (m : AMap κ ν) (p : κ → Bool) (k : κ) :
     get? (keep m p) k = if p k then get? m k else none := by
   induction m with
@@ -29,6 +25,15 @@ theorem get?_keep (m : AMap κ ν) (p : κ → Bool) (k : κ) :
       by_cases hk : k' = k
       · subst hk; simp [hp, ih]
       · simp [hk, ih]
+
+theorem get?_set (m : AMap κ ν) (k k' : κ) (v : ν) :
+    get? (set m k v) k' = if k = k' then some v else get? m k' := by
+  simp only [set, get?]
+  split
+  · rfl
+  · rename_i h
+    rw [get?_keep]
+    simp [Ne.symm h]
 
 theorem get?_keep_some (m : AMap κ ν) (p : κ → Bool) (k : κ) (v : ν)
     (h : get? (keep m p) k = some v) : get? m k = some v := by
@@ -321,10 +326,10 @@ theorem sigq_spec (hs : cfg.Sound) (st : State L T K V) (k : K) (s : L)
       simp only [hnone]
       refine ⟨by first | rfl | trivial, hinv _ rfl rfl rfl rfl rfl rfl rfl ?_, hcl _ rfl rfl⟩
       intro e he
-      simp only [AMap.set, List.mem_cons] at he
+      simp only [AMap.set, AMap.keep, List.mem_cons, List.mem_filter] at he
       rcases he with he | he
       · subst he; exact Nat.lt_succ_self _
-      · exact Nat.lt_succ_of_lt (hi.sigOk e he)
+      · exact Nat.lt_succ_of_lt (hi.sigOk e he.1)
 
 theorem gc_spec (st : State L T K V) (hi : Inv parse compute st) :
     Inv parse compute (gc cfg st) ∧ curLines (gc cfg st) = curLines st := by
